@@ -159,6 +159,15 @@ type FieldWrite struct {
 	Pos   string `json:"pos"`
 }
 
+// OnceFact: a method whose effects on its receiver run inside `recv.<once>.Do(func(){...})`
+type OnceFact struct {
+	Fn      string `json:"fn"`
+	Once    string `json:"once"`
+	Inside  int    `json:"effectsInside"`
+	Outside int    `json:"effectsOutside"`
+	Pos     string `json:"pos"`
+}
+
 type Unknown struct {
 	Phase string `json:"phase"`
 	Fn    string `json:"fn"`
@@ -179,6 +188,7 @@ type Out struct {
 	Risky     []Risky       `json:"riskyOps"`
 	Stores    []CallerStore `json:"callerStores"`
 	FWrites   []FieldWrite  `json:"fieldWrites"`
+	Onces     []OnceFact    `json:"onceFacts"`
 	SetupOnly []string      `json:"setupOnly"`
 	Vars      []string      `json:"vars"`
 	CallSites []CallJ       `json:"callSites"`
@@ -502,6 +512,18 @@ func (w *World) run() {
 	}
 	w.callEdges()
 	w.plainUses()
+	// a package-level variable of a tracked package that is accessed with sync/atomic is module-wide lock-free state:
+	// the lock discipline says nothing about how one resource's updates of it influence another resource's decisions
+	for obj, k := range w.atomObj {
+		v, ok := obj.(*types.Var)
+		if !ok || v.IsField() || v.Pkg() == nil {
+			continue
+		}
+		if p := w.pkgs[v.Pkg().Path()]; p != nil && p.track {
+			w.unknowns = append(w.unknowns, Unknown{Phase: "live", Fn: k, Pos: w.pos(v.Pos()),
+				What: "package-level variable " + k + " is accessed with sync/atomic: module-wide lock-free state shared by the paths of all resources is outside the lock-discipline model (one resource's rule updates may change another resource's decisions)"})
+		}
+	}
 }
 
 func sortedFuncs(p *Pkg) []*FuncInfo {
@@ -2685,6 +2707,107 @@ func (w *World) callerData() ([]CallerStore, []FieldWrite) {
 	return stores, writes
 }
 
+// onceFacts: for every method that calls `recv.<f>.Do(func(){...})` with f a sync.Once field of the receiver's struct:
+// how many calls that act on the receiver (methods of the receiver or of its fields, handlers ranged out of a receiver
+// field; sync/atomic methods excluded) sit inside that closure and how many outside it.
+func (w *World) onceFacts() []OnceFact {
+	out := []OnceFact{}
+	for _, p := range w.order {
+		if !p.track {
+			continue
+		}
+		for _, f := range sortedFuncs(p) {
+			fd := f.decl
+			if fd.Recv == nil || len(fd.Recv.List) != 1 || len(fd.Recv.List[0].Names) != 1 {
+				continue
+			}
+			recv := p.info.Defs[fd.Recv.List[0].Names[0]]
+			if recv == nil {
+				continue
+			}
+			var rooted func(e ast.Expr) bool
+			rooted = func(e ast.Expr) bool {
+				switch x := ast.Unparen(e).(type) {
+				case *ast.Ident:
+					return p.info.Uses[x] == recv
+				case *ast.SelectorExpr:
+					return rooted(x.X)
+				case *ast.CallExpr:
+					return rooted(x.Fun)
+				case *ast.IndexExpr:
+					return rooted(x.X)
+				}
+				return false
+			}
+			// the Do call
+			var do *ast.CallExpr
+			var lit *ast.FuncLit
+			onceName := ""
+			ast.Inspect(fd.Body, func(n ast.Node) bool {
+				ce, ok := n.(*ast.CallExpr)
+				if !ok || do != nil {
+					return true
+				}
+				sel, ok := ce.Fun.(*ast.SelectorExpr)
+				if !ok || sel.Sel.Name != "Do" || len(ce.Args) != 1 || !rooted(sel.X) {
+					return true
+				}
+				t := p.info.TypeOf(sel.X)
+				if nt, ok := t.(*types.Named); !ok || nt.Obj().Pkg() == nil || nt.Obj().Pkg().Path() != "sync" || nt.Obj().Name() != "Once" {
+					return true
+				}
+				if fl, ok := ce.Args[0].(*ast.FuncLit); ok {
+					do, lit = ce, fl
+					onceName = typeName(recv.Type()) + "." + types.ExprString(sel.X)
+				}
+				return true
+			})
+			if do == nil {
+				continue
+			}
+			// range variables bound to elements of receiver fields
+			handlers := map[types.Object]bool{}
+			ast.Inspect(fd.Body, func(n ast.Node) bool {
+				if rs, ok := n.(*ast.RangeStmt); ok && rooted(rs.X) {
+					if id, ok := rs.Value.(*ast.Ident); ok {
+						handlers[p.info.Defs[id]] = true
+					}
+				}
+				return true
+			})
+			fact := OnceFact{Fn: f.key, Once: onceName, Pos: w.pos(do.Pos())}
+			ast.Inspect(fd.Body, func(n ast.Node) bool {
+				ce, ok := n.(*ast.CallExpr)
+				if !ok || ce == do {
+					return true
+				}
+				effect := false
+				switch fn := ast.Unparen(ce.Fun).(type) {
+				case *ast.SelectorExpr:
+					if rooted(fn.X) {
+						effect = true
+						if fo, ok := p.info.Uses[fn.Sel].(*types.Func); ok && fo.Pkg() != nil && fo.Pkg().Path() == "sync/atomic" {
+							effect = false
+						}
+					}
+				case *ast.Ident:
+					effect = handlers[p.info.Uses[fn]]
+				}
+				if effect {
+					if ce.Pos() >= lit.Pos() && ce.End() <= lit.End() {
+						fact.Inside++
+					} else {
+						fact.Outside++
+					}
+				}
+				return true
+			})
+			out = append(out, fact)
+		}
+	}
+	return out
+}
+
 // plainUses lists every non-atomic use of a field / variable that is elsewhere used atomically.
 func (w *World) plainUses() {
 	for _, p := range w.order {
@@ -2876,6 +2999,7 @@ func (w *World) output() *Out {
 	}
 	sort.SliceStable(o.Risky, func(i, j int) bool { return o.Risky[i].Pos+o.Risky[i].Mu < o.Risky[j].Pos+o.Risky[j].Mu })
 	o.Stores, o.FWrites = w.callerData()
+	o.Onces = w.onceFacts()
 	if o.Stores == nil {
 		o.Stores = []CallerStore{}
 	}
@@ -3037,6 +3161,10 @@ func leanText(o *Out) string {
 	b.WriteString("]\n\ndef fieldWrites : List FieldWrite := [\n")
 	for i, r := range o.FWrites {
 		fmt.Fprintf(&b, "  ⟨%d, %d, .%s, %s, %s, %s⟩%s\n", i, fid2(r.Field), r.Phase, lstr(r.Fn), lstr(r.Pos), lstr(r.Field+": "+r.Op), comma(i, len(o.FWrites)))
+	}
+	b.WriteString("]\n\ndef onceFacts : List OnceFact := [\n")
+	for i, r := range o.Onces {
+		fmt.Fprintf(&b, "  ⟨%d, %s, %s, %d, %d, %s⟩%s\n", i, lstr(r.Fn), lstr(r.Once), r.Inside, r.Outside, lstr(r.Pos), comma(i, len(o.Onces)))
 	}
 	b.WriteString("]\n\ndef unknowns : List Unknown := [\n")
 	for i, u := range o.Unknowns {
